@@ -102,6 +102,9 @@ def prove_targets(db, targets, lemmas=(), timeout_ms=20000, verbose=False):
                 x["detail"] = (x.get("detail") or "") + " (decided in the second pass)"
                 x["ms"] += res[i]["ms"]
                 res[i] = x
+            else:
+                res[i]["detail"] = (res[i].get("detail") or "") + " | second pass: " + str(x.get("detail"))
+                res[i]["ms"] += x["ms"]
     # partial obligations (function undecided as a whole): keep only the ones that did NOT discharge
     res = [x for x, ob in zip(res, obs) if not (getattr(ob, "partial", False) and x["result"] == "unsat")]
     return {"functions": funcs, "results": res, "undecided_functions": undecided, "gen_s": round(t_gen, 2),
